@@ -354,14 +354,14 @@ impl Check {
             new_violations,
             known_hits.values().sum::<u64>()
         );
-        if !self.machinery.is_empty() {
-            for m in &self.machinery {
-                eprintln!("MACHINERY-ERROR: {}", m);
-            }
-            std::process::exit(2);
+        for m in &self.machinery {
+            eprintln!("MACHINERY-ERROR: {}", m);
         }
         if new_violations > 0 {
             std::process::exit(1);
+        }
+        if !self.machinery.is_empty() {
+            std::process::exit(2);
         }
         std::process::exit(0);
     }
